@@ -142,6 +142,33 @@ class CFG:
             if e.value:
                 return [(n.id, "T")], []
             return [], [(n.id, "F")]
+        if isinstance(e, ast.NamedExpr) and isinstance(e.target, ast.Name):
+            # (x := E) as a test atom:  the binding `x = E`, then the test on x
+            asg = ast.Assign(targets=[ast.Name(id=e.target.id, ctx=ast.Store())], value=e.value, type_comment=None)
+            ast.copy_location(asg, e)
+            ast.fix_missing_locations(asg)
+            a = self._new("stmt", asg, origin=e)
+            self._link(frontier, a.id)
+            self._exc_edges(a.id)
+            nm = ast.copy_location(ast.Name(id=e.target.id, ctx=ast.Load()), e)
+            n = self._new("test", nm, origin=e)
+            self._link([(a.id, None)], n.id)
+            return [(n.id, "T")], [(n.id, "F")]
+        if isinstance(e, ast.Compare) and isinstance(e.left, ast.NamedExpr) and isinstance(e.left.target, ast.Name):
+            # (x := E) is None  /  (x := E) > 0
+            asg = ast.Assign(targets=[ast.Name(id=e.left.target.id, ctx=ast.Store())], value=e.left.value, type_comment=None)
+            ast.copy_location(asg, e)
+            ast.fix_missing_locations(asg)
+            a = self._new("stmt", asg, origin=e)
+            self._link(frontier, a.id)
+            self._exc_edges(a.id)
+            cmp_ = ast.Compare(left=ast.Name(id=e.left.target.id, ctx=ast.Load()), ops=e.ops, comparators=e.comparators)
+            ast.copy_location(cmp_, e)
+            ast.fix_missing_locations(cmp_)
+            n = self._new("test", cmp_, origin=e)
+            self._link([(a.id, None)], n.id)
+            self._exc_edges(n.id)
+            return [(n.id, "T")], [(n.id, "F")]
         n = self._new("test", e)
         self._link(frontier, n.id)
         self._exc_edges(n.id)
